@@ -72,6 +72,7 @@ def try_(sid, tier="quick"):
         rc, o = sh("bin/check %s --tier %s" % (prop, tier), cwd=ROOT, timeout=7200)
     finally:
         sh("git -C /repo checkout -- .")
+        sh("cargo build --release --offline --quiet", cwd=os.path.join(ROOT, "harness"))   # never leave a binary built from the patched tree
         if os.path.exists(ev + ".keep"):
             os.replace(ev + ".keep", ev)
     viol = [l for l in o.splitlines() if l.startswith("VIOLATION")]
